@@ -3,7 +3,7 @@
 #  (1) patch applies and the unedited test suite passes with it, (2) it compiles with the hooks on,
 #  (3) the demonstration fails with the change and passes without. Prints CONFIRMED or the step that failed.
 set -u
-ID="$1"; V="$2"; WT="/tmp/mut-$ID"; OUT="/tmp/mut-out/$ID"; P="$OUT/$V.patch"
+ID="$1"; V="$2"; R="${ROUND:-}"; WT="/tmp/mut$R-$ID"; OUT="/tmp/mut-out$R/$ID"; P="$OUT/$V.patch"
 export CARGO_TARGET_DIR="$WT/target" CARGO_NET_OFFLINE=true
 cd "$WT" || { echo "no worktree $WT"; exit 2; }
 clean() { git -C "$WT" checkout -- . >/dev/null 2>&1; git -C "$WT" clean -fdq -e target >/dev/null 2>&1; }
